@@ -1503,6 +1503,12 @@ impl<'a, Octs: Octets + ?Sized> MessageTsig<'a, Octs> {
             // If it's None, then it's some other record type, and we just
             // continue.
             if let Some(record) = record {
+                // Other data is either empty or a 48 bit time stamp (RFC
+                // 8945, section 4.2). Anything else is not represented in
+                // `Variables` and would escape the signature.
+                if !matches!(record.data().other().as_ref().len(), 0 | 6) {
+                    return Err(TsigError::Invalid);
+                }
                 // We got a valid TSIG, now assert that it's the last record:
                 if section.next().is_some() {
                     return Err(TsigError::Position);
